@@ -54,10 +54,11 @@ type loopInfo struct {
 }
 
 type Enc struct {
-	W         *World
-	closureOf map[string]*ssa.MakeClosure // closure constant -> the instruction that made it (methodvalue())
-	fn        *ssa.Function
-	fc        *FuncContract
+	noCallsQuery bool // evaluating nocalls(): a pattern that matches no call is what is being claimed
+	W            *World
+	closureOf    map[string]*ssa.MakeClosure // closure constant -> the instruction that made it (methodvalue())
+	fn           *ssa.Function
+	fc           *FuncContract
 
 	decls   []string
 	declSet map[string]bool
